@@ -278,8 +278,17 @@ def run_case(res, case, attempt=0):
                                     R.TAG_AFFECTED_SOP_CLASS: svc.VERIFICATION, R.TAG_COMMAND_FIELD: 0x8030,
                                     R.TAG_MESSAGE_ID_RSP: cmd.get(R.TAG_MESSAGE_ID), R.TAG_STATUS: 0,
                                     R.TAG_DATA_SET_TYPE: 0x0101})
-                                cut = [10, len(rsp) // 2, len(rsp) - 1][k % 3]
-                                peer.send_pdu({'type': 4, 'pdvs': [{'ctx': ctx, 'data': b'\x01' + rsp[:cut]}]})
+                                if k % 4 == 3:
+                                    # ... or after the complete command set of a response that announces
+                                    # a data set, before any of that data set
+                                    rsp = R.build_command_set({
+                                        R.TAG_AFFECTED_SOP_CLASS: svc.VERIFICATION, R.TAG_COMMAND_FIELD: 0x8030,
+                                        R.TAG_MESSAGE_ID_RSP: cmd.get(R.TAG_MESSAGE_ID), R.TAG_STATUS: 0,
+                                        R.TAG_DATA_SET_TYPE: 0x0001})
+                                    peer.send_pdu({'type': 4, 'pdvs': [{'ctx': ctx, 'data': b'\x03' + rsp}]})
+                                else:
+                                    cut = [10, len(rsp) // 2, len(rsp) - 1][k % 3]
+                                    peer.send_pdu({'type': 4, 'pdvs': [{'ctx': ctx, 'data': b'\x01' + rsp[:cut]}]})
                                 peer.abort(*pair)
                                 peer.wait_closed(3.0)
                                 return seen
